@@ -1,31 +1,38 @@
-(* C16 (2): the translated allocation code of NewControl never asks for a negative channel size,
-   and equals the reference model. *)
+(* C16 (2): the allocation code of NewControl, as translated today (gen/GenAlloc.v, unit T8a), never asks
+   for a negative channel size and equals the reference model, for EVERY client value and EVERY server
+   maximum (negative ones included).  The script is generic (unfold, case split on every condition, linear
+   arithmetic): it goes through for any equivalent rewriting of the clamp and fails for any that computes
+   something else. *)
 From Coq Require Import ZArith Lia Bool.
 From FRP Require Import Model.Alloc gen.GenAlloc.
 Open Scope Z_scope.
 
-Lemma gen_pool_count_spec : forall login maxp, 0 <= maxp ->
+Ltac alloc_cases :=
+  cbv beta zeta delta [gen_pool_count gen_chan_cap gen_alloc_env];
+  repeat match goal with
+         | |- context [if ?b then _ else _] => destruct b eqn:?
+         | H : context [if ?b then _ else _] |- _ => destruct b eqn:?
+         end; lia.
+
+Lemma gen_pool_count_spec : forall login maxp,
   gen_pool_count login maxp = al_pool_count login maxp.
-Proof.
-  intros login maxp Hm. unfold gen_pool_count, al_pool_count.
-  destruct (login >? maxp) eqn:E1.
-  - destruct (maxp <? 0) eqn:E2; lia.
-  - destruct (login <? 0) eqn:E2; lia.
-Qed.
+Proof. intros login maxp. unfold al_pool_count. alloc_cases. Qed.
 
-Lemma gen_chan_cap_spec : forall p, gen_chan_cap p = al_chan_cap p.
-Proof. intros p. unfold gen_chan_cap, al_chan_cap, al_pool_slack. lia. Qed.
+Lemma gen_chan_cap_spec : forall login maxp,
+  gen_chan_cap login maxp = al_chan_cap (al_pool_count login maxp).
+Proof. intros login maxp. unfold al_chan_cap, al_pool_slack, al_pool_count. alloc_cases. Qed.
 
-Lemma pool_count_bounds : forall login maxp, 0 <= maxp ->
-  0 <= al_pool_count login maxp <= maxp /\ al_pool_count login maxp <= Z.max 0 login.
+Lemma pool_count_bounds : forall login maxp,
+  0 <= al_pool_count login maxp /\ al_pool_count login maxp <= Z.max 0 maxp /\
+  al_pool_count login maxp <= Z.max 0 login.
 Proof. intros. unfold al_pool_count. lia. Qed.
 
-Lemma chan_cap_nonneg : forall login maxp, 0 <= maxp ->
-  al_makechan_ok (gen_chan_cap (gen_pool_count login maxp)) = true.
+Lemma chan_cap_nonneg : forall login maxp,
+  al_makechan_ok (gen_chan_cap login maxp) = true.
 Proof.
-  intros login maxp Hm. rewrite gen_chan_cap_spec, gen_pool_count_spec by exact Hm.
+  intros login maxp. rewrite gen_chan_cap_spec.
   unfold al_makechan_ok, al_chan_cap, al_pool_slack.
-  pose proof (pool_count_bounds login maxp Hm). apply Z.leb_le. lia.
+  pose proof (pool_count_bounds login maxp). apply Z.leb_le. lia.
 Qed.
 
 (* non-vacuity / regression witness: without the lower clamp the size would be negative *)
